@@ -13,6 +13,7 @@ from . import contracts, core, load
 def main():
     a = sys.argv[1:]
     prop = a[0]
+    sys.setrecursionlimit(6000)
     load.load()
     mod = importlib.import_module(f"vmon.props.{prop.lower()}")
     if a[1] == "--replay":
